@@ -109,7 +109,8 @@ Definition phdr_to_tv (p : phdr) : tv :=
 (* logicalType is kept as the generic value (a union of mostly empty structs); `logical_summary` reads
    the union member and, for TIME/TIMESTAMP, the unit *)
 Record selem := { se_type : option Z; se_tlen : option Z; se_rep : option Z; se_name : bytes;
-                  se_nchildren : option Z; se_conv : option Z; se_logical : option tv }.
+                  se_nchildren : option Z; se_conv : option Z; se_logical : option tv;
+                  se_scale : option Z; se_prec : option Z }.
 (* statistics: only null_count matters for the structure (min/max are property C04) *)
 Record cmd := { cm_type : Z; cm_encodings : list Z; cm_path : list bytes; cm_codec : Z; cm_nvals : Z;
                 cm_tus : Z; cm_tcs : Z; cm_data_off : Z; cm_index_off : option Z; cm_dict_off : option Z;
@@ -122,8 +123,9 @@ Definition selem_of_tv (v : tv) : option selem :=
   let? fs := as_struct v in
   let? ty := opt as_int 1 fs in let? tl := opt as_int 2 fs in let? rp := opt as_int 3 fs in
   let? nm := req as_bin 4 fs in let? nc := opt as_int 5 fs in let? cv := opt as_int 6 fs in
+  let? sc := opt as_int 7 fs in let? pr := opt as_int 8 fs in
   Some {| se_type := ty; se_tlen := tl; se_rep := rp; se_name := nm; se_nchildren := nc; se_conv := cv;
-          se_logical := fld 10 fs |}.
+          se_logical := fld 10 fs; se_scale := sc; se_prec := pr |}.
 
 (* (union member id, time unit id 1 MILLIS / 2 MICROS / 3 NANOS or 0) *)
 Definition logical_summary (v : tv) : option (N * N) :=
@@ -170,7 +172,7 @@ Definition fmd_of_tv (v : tv) : option fmd :=
 Definition selem_to_tv (s : selem) : tv :=
   TStruct (optf 1 TI32 (se_type s) ++ optf 2 TI32 (se_tlen s) ++ optf 3 TI32 (se_rep s) ++
            [(4%N, TBin (se_name s))] ++ optf 5 TI32 (se_nchildren s) ++ optf 6 TI32 (se_conv s) ++
-           optf 10 (fun v => v) (se_logical s)).
+           optf 7 TI32 (se_scale s) ++ optf 8 TI32 (se_prec s) ++ optf 10 (fun v => v) (se_logical s)).
 
 Definition cmd_to_tv (c : cmd) : tv :=
   TStruct ([(1%N, TI32 (cm_type c)); (2%N, TList 5 (map TI32 (cm_encodings c)));
